@@ -32,16 +32,11 @@ Proof. intros H. unfold scan_d. rewrite H. eauto. Qed.
 Lemma scan_u_of_num s neg v rest : scan_num s = Some (neg, v, rest) -> exists x, scan_u s = Some (x, rest).
 Proof. intros H. unfold scan_u. rewrite H. eauto. Qed.
 
-(* ---------------- safety of trx_ctrl_read_cb under the two conditions the pinned code relies on ---------------- *)
-Lemma c_measure_rsp_safe d st : rsp_measure_text d = true ->
-  cr_unsafe (c_measure_rsp (firstn (Z.to_nat (trxc_buf_size - 1)) d ++ [0]) st) = false.
+(* ---------------- safety of trx_ctrl_read_cb (repaired code, commit 35bc7c1): unconditional ---------------- *)
+Lemma c_measure_rsp_safe m st : cr_unsafe (c_measure_rsp m st) = false.
 Proof.
-  unfold rsp_measure_text, c_measure_rsp. set (data := firstn _ d).
-  destruct (cstr (skipn 14 (data ++ [0]))) as [m|]; [|discriminate].
-  destruct (scan_num m) as [[[neg v] rest]|] eqn:E1; [|discriminate].
-  destruct (scan_num rest) as [[[neg2 v2] rest2]|] eqn:E2; [|discriminate]. intros _.
-  destruct (scan_u_of_num _ _ _ _ E1) as [f ->]. destruct (scan_d_of_num _ _ _ _ E2) as [dbm ->].
-  destruct (freq102arfcn _); reflexivity.
+  unfold c_measure_rsp. destruct (scan_u m) as [[f rest]|]; [|reflexivity].
+  destruct (scan_d rest) as [[dbm r]|]; [|reflexivity]. destruct (freq102arfcn _); reflexivity.
 Qed.
 
 (* no pending command: nothing is dereferenced *)
@@ -51,56 +46,37 @@ Proof.
   rewrite cstr_app0. destruct (negb _); reflexivity.
 Qed.
 
-(* C14 (C side, TRXC): a reply that carries a status field - and, when the pending command is MEASURE, the result text at
-   offset 14 - is processed without touching a NULL pointer or an uninitialised value, for every pending command *)
-Theorem c_ctrl_rsp_safe : forall pending d,
-  rsp_has_status d = true ->
-  (forall crit cmdbuf, pending = Some (crit, cmdbuf) -> strncmp_eq (skipn 4 (cstr0 cmdbuf)) s_MEASURE 7 = true -> rsp_measure_text d = true) ->
-  cr_unsafe (c_ctrl_rsp pending d) = false.
+(* C14 (C side, TRXC): whatever octets arrive on the control socket and whatever command is pending (or none), trx_ctrl_read_cb
+   neither dereferences a NULL pointer nor reads a value it has not written *)
+Theorem c_ctrl_rsp_safe : forall pending d, cr_unsafe (c_ctrl_rsp pending d) = false.
 Proof.
-  intros pending d Hst Hme. destruct pending as [[crit cmdbuf]|]; [|apply c_ctrl_rsp_nopending_safe].
-  specialize (Hme crit cmdbuf eq_refl).
-  unfold c_ctrl_rsp. unfold rsp_has_status in Hst.
-  pose proof (c_measure_rsp_safe d) as Hms.
+  intros pending d. destruct pending as [[crit cmdbuf]|]; [|apply c_ctrl_rsp_nopending_safe].
+  unfold c_ctrl_rsp.
   set (data := firstn (Z.to_nat (trxc_buf_size - 1)) d) in *.
   destruct data as [|x data'] eqn:Ed; [reflexivity|]. rewrite <- Ed in *. clear Ed.
   rewrite cstr_app0. set (s := cstr0 data) in *.
   destruct (negb (strncmp_eq s s_RSP 4)); [reflexivity|].
-  destruct (find_sp (skipn 4 s)) as [k|]; [|discriminate].
+  destruct (find_sp (skipn 4 s)) as [k|]; [|destruct (negb _); reflexivity].
   destruct (negb (strncmp_eq _ _ _)); [reflexivity|].
-  destruct (scan_num (skipn (4 + k + 1) s)) as [[[neg v] rest]|] eqn:E; [|discriminate].
-  destruct (scan_d_of_num _ _ _ _ E) as [resp ->].
+  destruct (scan_d (skipn (4 + k + 1) s)) as [[resp r]|]; [|reflexivity].
   destruct (negb (resp =? 0) && crit); [reflexivity|].
   destruct (strncmp_eq _ s_POWERON 7); [reflexivity|]. destruct (strncmp_eq _ s_POWEROFF 8); [reflexivity|].
-  destruct (strncmp_eq _ s_MEASURE 7) eqn:Em; [apply Hms, Hme; reflexivity|].
+  destruct (strncmp_eq _ s_MEASURE 7); [apply c_measure_rsp_safe|].
   destruct (strncmp_eq _ s_ECHO 4); reflexivity.
 Qed.
 
-(* conversely the two conditions are needed: the defects of the pinned parser, with witnesses (DESIGN 9-6) *)
+(* the replies that crashed the code before the repair (DESIGN 9-6) now end the session cleanly or are ignored field-wise *)
 Definition str_CMD_POWERON : list Z := [67; 77; 68; 32; 80; 79; 87; 69; 82; 79; 78].                 (* "CMD POWERON" *)
 Definition str_RSP_POWERON : list Z := [82; 83; 80; 32; 80; 79; 87; 69; 82; 79; 78].                 (* "RSP POWERON" *)
 Definition str_CMD_MEASURE : list Z := [67; 77; 68; 32; 77; 69; 65; 83; 85; 82; 69; 32; 57; 51; 53; 50; 48; 48].   (* "CMD MEASURE 935200" *)
 Definition str_RSP_MEASURE_0 : list Z := [82; 83; 80; 32; 77; 69; 65; 83; 85; 82; 69; 32; 48].       (* "RSP MEASURE 0" *)
-
-(* "RSP POWERON" without a status field: p = NULL, sscanf(p + 1, ...) *)
-Lemma c_ctrl_null_deref_refuted : c_ctrl_rsp (Some (true, str_CMD_POWERON)) str_RSP_POWERON = CrNullDeref.
-Proof. vm_compute. reflexivity. Qed.
-(* the four octets "RSP " do it for EVERY pending command (rsp_len = 0 makes strncmp succeed) *)
-Lemma c_ctrl_null_deref_any_pending : forall crit cmdbuf, c_ctrl_rsp (Some (crit, cmdbuf)) s_RSP = CrNullDeref.
-Proof. intros crit cmdbuf. reflexivity. Qed.
-(* "RSP POWERON x": sscanf assigns nothing, if (resp) reads an uninitialised int *)
-Lemma c_ctrl_uninit_resp_refuted : c_ctrl_rsp (Some (true, str_CMD_POWERON)) (str_RSP_POWERON ++ [32; 120]) = CrUninit 1.
-Proof. vm_compute. reflexivity. Qed.
-(* "RSP MEASURE 0": buf + 14 lies one octet past the terminating NUL *)
-Lemma c_ctrl_measure_offset_refuted : c_ctrl_rsp (Some (true, str_CMD_MEASURE)) str_RSP_MEASURE_0 = CrUninit 2.
-Proof. vm_compute. reflexivity. Qed.
-(* "RSP MEASURE 0 935200": dbm is never assigned but handed to trxcon_phyif_handle_rsp *)
-Lemma c_ctrl_measure_dbm_refuted :
-  c_ctrl_rsp (Some (true, str_CMD_MEASURE)) (str_RSP_MEASURE_0 ++ [32; 57; 51; 53; 50; 48; 48]) = CrUninit 4.
-Proof. vm_compute. reflexivity. Qed.
-(* so the unconditional safety statement is false *)
-Lemma c_ctrl_rsp_safe_refuted : ~ (forall pending d, cr_unsafe (c_ctrl_rsp pending d) = false).
-Proof. intros H. specialize (H (Some (true, str_CMD_POWERON)) str_RSP_POWERON). rewrite c_ctrl_null_deref_refuted in H. discriminate. Qed.
+Example former_witnesses :
+  c_ctrl_rsp (Some (true, str_CMD_POWERON)) str_RSP_POWERON = CrNoStatus                              (* was: NULL + 1 handed to sscanf *)
+  /\ (forall crit cmdbuf, c_ctrl_rsp (Some (crit, cmdbuf)) s_RSP = CrNoStatus)                        (* "RSP " against any pending command *)
+  /\ c_ctrl_rsp (Some (true, str_CMD_POWERON)) (str_RSP_POWERON ++ [32; 120]) = CrNoStatus            (* was: resp uninitialised *)
+  /\ c_ctrl_rsp (Some (true, str_CMD_MEASURE)) str_RSP_MEASURE_0 = CrAccepted 0 ActMeasureUnparsed    (* was: buf + 14 behind the NUL *)
+  /\ c_ctrl_rsp (Some (true, str_CMD_MEASURE)) (str_RSP_MEASURE_0 ++ [32; 57; 51; 53; 50; 48; 48]) = CrAccepted 0 ActMeasureUnparsed.  (* was: dbm unassigned *)
+Proof. repeat split; try (vm_compute; reflexivity). Qed.
 
 (* ---------------- decimal printing and scanning ---------------- *)
 Definition valr (l : list Z) : Z := fold_right (fun c a => (c - 48) + 10 * a) 0 l.     (* value of reversed digits *)
@@ -181,10 +157,10 @@ Qed.
 (* ---------------- a reply of the prescribed form is matched and its status honoured ---------------- *)
 Definition verb_chars (v : list Z) : Prop := Forall (fun c => c <> 0 /\ c <> 32) v.
 
-Definition dispatch (ext cmd4 : list Z) (st : Z) : ctrl_res :=
+Definition dispatch (after cmd4 : list Z) (st : Z) : ctrl_res :=
   if strncmp_eq cmd4 s_POWERON 7 then CrAccepted st ActPowerOn
   else if strncmp_eq cmd4 s_POWEROFF 8 then CrAccepted st ActPowerOff
-  else if strncmp_eq cmd4 s_MEASURE 7 then c_measure_rsp ext st
+  else if strncmp_eq cmd4 s_MEASURE 7 then c_measure_rsp (after_status after) st
   else if strncmp_eq cmd4 s_ECHO 4 then CrAccepted st ActEcho
   else CrAccepted st ActOther.
 
@@ -196,7 +172,7 @@ Theorem ctrl_rsp_wellformed crit cmdbuf V st tail :
   let d := s_RSP ++ V ++ [SP] ++ dec_d st ++ tail in
   (length d <= 1023)%nat ->
   c_ctrl_rsp (Some (crit, cmdbuf)) d =
-    if negb (st =? 0) && crit then CrRejected st else dispatch (d ++ [0]) (skipn 4 (cstr0 cmdbuf)) st.
+    if negb (st =? 0) && crit then CrRejected st else dispatch (dec_d st ++ cstr0 tail) (skipn 4 (cstr0 cmdbuf)) st.
 Proof.
   intros HV Hcmd Hst Htail d Hlen. unfold c_ctrl_rsp.
   destruct gen_trxif_consts as [-> _]. change (Z.to_nat (1024 - 1)) with 1023%nat.
@@ -286,7 +262,7 @@ Proof.
   - injection Hc as <- <-. destruct Hin.
 Qed.
 
-Lemma dispatch_nonmeasure V rest ext st : In V verbs -> V <> v_MEASURE -> exists a, dispatch ext (V ++ rest) st = CrAccepted st a.
+Lemma dispatch_nonmeasure V rest after st : In V verbs -> V <> v_MEASURE -> exists a, dispatch after (V ++ rest) st = CrAccepted st a.
 Proof.
   unfold verbs. intros H Hm. repeat (destruct H as [<- | H]; [try (eexists; reflexivity); congruence|]). destruct H.
 Qed.
@@ -312,7 +288,7 @@ Proof.
   exists V. split; [exact HV|]. split; [exact Hpre|]. intros Hlen Hcase.
   destruct (verbs_ok V HV) as [_ [_ Hvc]].
   rewrite (ctrl_rsp_wellformed crit text V st tail Hvc Hpre Hst Htail Hlen).
-  set (ext := (s_RSP ++ V ++ [SP] ++ dec_d st ++ tail) ++ [0]). clearbody ext.
+  set (ext := dec_d st ++ cstr0 tail). clearbody ext.
   set (cmd4 := skipn 4 (cstr0 text)) in *.
   assert (Hc4 : cmd4 = V ++ skipn (length V) cmd4) by (rewrite <- Hpre at 1; symmetry; apply firstn_skipn).
   destruct (st =? 0) eqn:E0; cbn [negb andb].
@@ -339,35 +315,45 @@ Qed.
 Lemma scan_d_sp s : scan_d (SP :: s) = scan_d s.
 Proof. reflexivity. Qed.
 
-Theorem ctrl_measure_wellformed cmdbuf khz dbm tail :
+Lemma find_sp_app' v r : Forall (fun c => c <> 0 /\ c <> 32) v -> find_sp (v ++ SP :: r) = Some (length v).
+Proof. intros H. apply find_sp_app. eapply Forall_impl; [|exact H]. cbv beta. intros; lia. Qed.
+
+(* "RSP MEASURE <status> <kHz> <dB>...": the results are found after the status field whatever its width; they are used when the status
+   lets the reply through (0, or any status if the command were not critical) *)
+Theorem ctrl_measure_wellformed crit cmdbuf st khz dbm tail :
   firstn 7 (skipn 4 (cstr0 cmdbuf)) = v_MEASURE ->
+  -2147483648 <= st <= 2147483647 -> (st = 0 \/ crit = false) ->
   0 <= khz < 4294967296 -> -2147483648 <= dbm <= 2147483647 -> not_digit_head tail ->
-  let d := s_RSP ++ v_MEASURE ++ [SP] ++ dec_d 0 ++ [SP] ++ dec_u khz ++ [SP] ++ dec_d dbm ++ tail in
+  let d := s_RSP ++ v_MEASURE ++ [SP] ++ dec_d st ++ [SP] ++ dec_u khz ++ [SP] ++ dec_d dbm ++ tail in
   (length d <= 1023)%nat ->
-  c_ctrl_rsp (Some (true, cmdbuf)) d =
-    CrAccepted 0 (ActMeasure (u16 (khz / 100)) (match freq102arfcn (u16 (khz / 100)) with Some a => Some (a, dbm) | None => None end)).
+  c_ctrl_rsp (Some (crit, cmdbuf)) d =
+    CrAccepted st (ActMeasure (u16 (khz / 100)) (match freq102arfcn (u16 (khz / 100)) with Some a => Some (a, dbm) | None => None end)).
 Proof.
-  intros Hcmd Hk Hdbm Htail d Hlen. subst d.
+  intros Hcmd Hst Hacc Hk Hdbm Htail d Hlen. subst d.
   assert (HV : In v_MEASURE verbs) by (unfold verbs; cbn [In]; tauto).
   destruct (verbs_ok _ HV) as [_ [_ Hvc]].
-  pose proof (ctrl_rsp_wellformed true cmdbuf v_MEASURE 0 ([SP] ++ dec_u khz ++ [SP] ++ dec_d dbm ++ tail) Hvc Hcmd ltac:(lia)) as H.
+  pose proof (ctrl_rsp_wellformed crit cmdbuf v_MEASURE st ([SP] ++ dec_u khz ++ [SP] ++ dec_d dbm ++ tail) Hvc Hcmd Hst) as H.
   cbv zeta in H. rewrite H; [|cbn; unfold SP; lia|exact Hlen]. clear H.
-  change (negb (0 =? 0) && true) with false. cbv iota.
+  assert (Hgo : negb (st =? 0) && crit = false) by (destruct Hacc as [-> | ->]; [reflexivity|apply andb_false_r]).
+  rewrite Hgo.
   unfold dispatch. rewrite <- (firstn_skipn 7 (skipn 4 (cstr0 cmdbuf))), Hcmd.
   change (strncmp_eq (v_MEASURE ++ _) s_POWERON 7) with false. change (strncmp_eq (v_MEASURE ++ _) s_POWEROFF 8) with false.
   change (strncmp_eq (v_MEASURE ++ _) s_MEASURE 7) with true. cbv iota.
+  destruct (dec_u_scan khz [] ltac:(lia) I) as [_ [_ [Hdk _]]]. destruct (dec_d_chars dbm Hdbm) as [Hdc _]. destruct (dec_d_chars st Hst) as [Hsc _].
+  assert (Hcs : cstr0 ([SP] ++ dec_u khz ++ [SP] ++ dec_d dbm ++ tail) = SP :: dec_u khz ++ SP :: dec_d dbm ++ cstr0 tail).
+  { replace ([SP] ++ dec_u khz ++ [SP] ++ dec_d dbm ++ tail) with (([SP] ++ dec_u khz ++ [SP] ++ dec_d dbm) ++ tail) by (repeat rewrite <- app_assoc; reflexivity).
+    rewrite cstr0_app; [repeat rewrite <- app_assoc; reflexivity|].
+    unfold no_nul. apply Forall_app. split; [unfold SP; repeat constructor; lia|].
+    apply Forall_app. split; [eapply Forall_impl; [|exact Hdk]; cbv beta; intros; lia|].
+    apply Forall_app. split; [unfold SP; repeat constructor; lia|]. eapply Forall_impl; [|exact Hdc]. cbv beta. intros; lia. }
+  rewrite Hcs. unfold after_status. rewrite find_sp_app' by exact Hsc.
+  replace (dec_d st ++ SP :: dec_u khz ++ SP :: dec_d dbm ++ cstr0 tail) with ((dec_d st ++ [SP]) ++ dec_u khz ++ SP :: dec_d dbm ++ cstr0 tail)
+    by (rewrite <- app_assoc; reflexivity).
+  replace (length (dec_d st) + 1)%nat with (length (dec_d st ++ [SP])) by (rewrite app_length; reflexivity).
+  rewrite skipn_app_exact.
   unfold c_measure_rsp.
-  change (skipn 14 ((s_RSP ++ v_MEASURE ++ [SP] ++ dec_d 0 ++ [SP] ++ dec_u khz ++ [SP] ++ dec_d dbm ++ tail) ++ [0]))
-    with ((dec_u khz ++ [SP] ++ dec_d dbm ++ tail) ++ [0]).
-  rewrite cstr_app0.
-  destruct (dec_u_scan khz [] ltac:(lia) I) as [_ [_ [Hdk _]]]. destruct (dec_d_chars dbm Hdbm) as [Hdc _].
-  replace (dec_u khz ++ [SP] ++ dec_d dbm ++ tail) with ((dec_u khz ++ [SP] ++ dec_d dbm) ++ tail) by (repeat rewrite <- app_assoc; reflexivity).
-  rewrite cstr0_app.
-  2:{ unfold no_nul. apply Forall_app. split; [eapply Forall_impl; [|exact Hdk]; cbv beta; intros; lia|].
-      apply Forall_app. split; [unfold SP; repeat constructor; lia|]. eapply Forall_impl; [|exact Hdc]. cbv beta. intros; lia. }
-  repeat rewrite <- app_assoc.
   rewrite scan_u_dec by (try lia; cbn; unfold SP; lia).
-  cbn [app]. rewrite scan_d_sp.
+  rewrite scan_d_sp.
   assert (Ht' : not_digit_head (cstr0 tail)).
   { destruct tail as [|c t]; [exact I|]. cbn [cstr0]. destruct (c =? 0); [exact I|]. exact Htail. }
   rewrite scan_d_dec by assumption.
